@@ -42,7 +42,7 @@ def validQueryName : Bytes → Bool
   | [] => false
   | c :: cs => isLetterB c && cs.all (fun b => isLetterB b || isDigitB b)
 
-def cmdsB : List Bytes := Gen.cmdAccepted.map B
+def cmdsB : List Bytes := Gen.cmdAcceptedB
 
 def pHash : Bytes := b! "#"
 def pHashName : Bytes := b! "# name:"
@@ -62,18 +62,17 @@ def annotationPrefix (cs : CommentSyntax) (line : Bytes) : Option Bytes :=
         let p3 : Bytes := if hasPrefix pHash line then pHashName else p2
         if p3.isEmpty then none else if !hasPrefix p3 line then none else some p3
 
+def annotationParts (line : Bytes) : List Bytes :=
+  let part0 := splitSpace (trimSpace line)
+  if hasPrefix pSlash line then part0.dropLast else part0
+
 /-- what Parse does with one annotation line -/
 def parseLine (line : Bytes) : MetaResult :=
-  let part0 := splitSpace (trimSpace line)
-  let part := if hasPrefix pSlash line then part0.dropLast else part0
-  if part.length = 2 then .err .missingType
-  else if part.length ≠ 4 then .err .invalidComment
-  else
-    let name := part.getD 2 []
-    let ty := trimSpace (part.getD 3 [])
-    if !cmdsB.contains ty then .err .invalidType
-    else if !validQueryName name then .err .invalidName
-    else .ok name ty
+  if (annotationParts line).length = 2 then .err .missingType
+  else if (annotationParts line).length ≠ 4 then .err .invalidComment
+  else if !cmdsB.contains (trimSpace ((annotationParts line).getD 3 [])) then .err .invalidType
+  else if !validQueryName ((annotationParts line).getD 2 []) then .err .invalidName
+  else .ok ((annotationParts line).getD 2 []) (trimSpace ((annotationParts line).getD 3 []))
 
 /-- metadata.Parse: the first annotation line decides -/
 def parseLines (cs : CommentSyntax) : List Bytes → MetaResult
